@@ -53,6 +53,8 @@ func c09Scenario(id string, g c09Cfg, pattern, fault, nJobs, directed int, seed 
 			SetWorkerExpiryDuration(g.expiry).
 			SetWorkerJamDuration(g.jam).
 			SetPanicHandler(func(p interface{}) {
+				// handlers of different speed: instant, 2 ms, 5 ms (slower than the spawn loop's reaction)
+				time.Sleep(time.Duration([...]int{0, 2, 5}[int(seed%3+3)%3]) * time.Millisecond)
 				handlerMu.Lock()
 				handled = append(handled, p)
 				handlerMu.Unlock()
@@ -377,8 +379,84 @@ func c09FullScenario(id string, qcap, qbuf int, seed int64) core.Scenario {
 	}}
 }
 
+// two pools on ONE job queue: pool A (job queue kept open on Close) is closed while its stand-by workers wait for
+// jobs; pool B, left open, then accepts jobs on the same queue. Every job B accepted runs exactly once, whichever
+// worker dequeues it.
+func c09SharedQueue(id string, standbyA, nJobs int, closeAFirst bool, seed int64) core.Scenario {
+	return core.Scenario{ID: id, Class: "WorkerPool.shared", Run: func(c *core.Ctx) {
+		rep := map[string]any{"scenario": id, "standby_of_closed_pool": standbyA, "jobs": nJobs}
+		c.Eval(int64(nJobs))
+		c.Distinct(id)
+		q := fpgo.NewBufferedChannelQueue[func()](4, 64, 8)
+		q.SetLoadFromPoolDuration(100 * time.Microsecond)
+		mk := func(standby int) *worker.DefaultWorkerPool {
+			return worker.NewDefaultWorkerPool(q, nil).SetWorkerSizeMaximum(4).SetWorkerSizeStandBy(standby).SetWorkerBatchSize(1).
+				SetSpawnWorkerDuration(100 * time.Microsecond).SetWorkerExpiryDuration(10 * time.Second).
+				SetIsJobQueueClosedWhenClose(false).SetPanicHandler(func(interface{}) {})
+		}
+		a := mk(standbyA)
+		var warm atomic.Int32
+		for i := 0; i < standbyA*2; i++ {
+			a.Schedule(func() { warm.Add(1); time.Sleep(200 * time.Microsecond) })
+		}
+		deadline := time.Now().Add(20 * time.Second)
+		for int(warm.Load()) < standbyA*2 && time.Now().Before(deadline) {
+			time.Sleep(100 * time.Microsecond)
+		}
+		time.Sleep(time.Duration(seed%5) * 300 * time.Microsecond)
+		var b *worker.DefaultWorkerPool
+		if closeAFirst {
+			a.Close()
+			b = mk(1)
+		} else {
+			b = mk(1)
+			a.Close()
+		}
+		starts := make([]atomic.Int32, nJobs)
+		var started atomic.Int32
+		nAcc := int32(0)
+		acc := make([]bool, nJobs)
+		for i := 0; i < nJobs; i++ {
+			i := i
+			if err := b.Schedule(func() { starts[i].Add(1); started.Add(1) }); err == nil {
+				acc[i] = true
+				nAcc++
+			}
+		}
+		all := make(chan struct{})
+		go func() {
+			for started.Load() < nAcc {
+				time.Sleep(100 * time.Microsecond)
+			}
+			close(all)
+		}()
+		d := director.Get()
+		v, dump := core.AwaitOrStuck(all, 3*time.Second, 60*time.Second, func() int64 {
+			return int64(started.Load()) + d.Count("pool.worker.exit") + d.Count("pool.worker.gotJob") + d.Count("pool.trySpawn.computed")
+		})
+		if v == "stuck" {
+			c.Violationf("accepted-job-never-runs", map[string]any{"scenario": id, "goroutines": core.RepoGoroutineSummary(dump)},
+				"two pools on one job queue, the first closed with its job queue kept open: %d of %d jobs accepted by the open pool never started", nAcc-started.Load(), nAcc)
+		} else if v != "done" {
+			c.Inconclusive("watchdog in " + id)
+		} else {
+			time.Sleep(500 * time.Microsecond)
+			for i := range starts {
+				if n := starts[i].Load(); acc[i] && n != 1 {
+					c.Violationf("accepted-job-started-"+map[bool]string{true: "twice", false: "never"}[n > 1], rep, "shared job queue: accepted job %d started %d times", i, n)
+				}
+			}
+		}
+		b.Close()
+		q.Close()
+	}}
+}
+
 func c09Scenarios(c *core.Ctx, race bool) []core.Scenario {
 	var out []core.Scenario
+	for i := 0; i < c.Pick(6, 24); i++ {
+		out = append(out, c09SharedQueue(fmt.Sprintf("shared-queue-%d-race%v", i, race), 1+i%3, 10+i, i%2 == 0, c.Seed*3+int64(i)))
+	}
 	var cfgs []c09Cfg
 	for max := 1; max <= 4; max++ {
 		for _, standby := range []int{1, max} {
@@ -408,6 +486,12 @@ func c09Scenarios(c *core.Ctx, race bool) []core.Scenario {
 	}
 	// always include the smallest pool (max 1, standby 1), where a lost wake-up cannot be masked by other workers
 	picked[0] = true
+	// and the stand-by 0 pools of maximum 1 and 2 (a worker that leaves is not replaced unless the spawn loop is told)
+	for ci, g := range cfgs {
+		if g.standby == 0 && g.max <= 2 {
+			picked[ci] = true
+		}
+	}
 	seeds := c.Pick(3, 8)
 	for ci := range cfgs {
 		if !picked[ci] {
@@ -447,7 +531,7 @@ func init() {
 		Meta: func(c *core.Ctx) core.Meta {
 			return core.Meta{
 				Level: "exploration",
-				Rule: "pool configurations workerSizeMaximum 1..4 x standby {1,max} (and standby 0 with batch >= 1 and a 10 s idle expiry) x batch {0,1,3} x job queue (cap,buf) in {(1,0),(2,3),(3,8)} x expiry {2,20 ms} x jam {1,50 ms} (quick: 24 of them incl. the max-1 pool, thorough: all 104 x 8 seeds) x 6 submission patterns (burst, trickle, 2..8 concurrent submitters, ScheduleWithTimeout, InvokeWithTimeout, burst then silence) x 2 fault placements each (first / last / every worker's current job panics, PRNG panics + slow jobs, slow jobs) plus directed runs that park a dying worker, two expiring workers, the spawn loop after its computation and Schedule before its wake-up; the jobs are the monitor (atomic start counters per unique job, concurrency gauge asserted at every start, unique panic values); the panic handler logs what it gets; " +
+				Rule: "pool configurations workerSizeMaximum 1..4 x standby {1,max} (and standby 0 with batch >= 1 and a 10 s idle expiry) x batch {0,1,3} x job queue (cap,buf) in {(1,0),(2,3),(3,8)} x expiry {2,20 ms} x jam {1,50 ms} (quick: 24 of them incl. the max-1 pool, thorough: all 104 x 8 seeds) x 6 submission patterns (burst, trickle, 2..8 concurrent submitters, ScheduleWithTimeout, InvokeWithTimeout, burst then silence) x 2 fault placements each (first / last / every worker's current job panics, PRNG panics + slow jobs, slow jobs) plus directed runs that park a dying worker, two expiring workers, the spawn loop after its computation and Schedule before its wake-up; the jobs are the monitor (atomic start counters per unique job, concurrency gauge asserted at every start, unique panic values); the panic handler logs what it gets and is instant, 2 ms or 5 ms slow; two pools sharing one job queue (the first closed with its queue kept open while its stand-by workers wait, the second accepts jobs afterwards); " +
 					"after submission the driver waits until every accepted job started or the stuck detector fires (no job start and no worker lifecycle event for 3 s and no library goroutine able to progress); dedicated scenarios hold the only worker busy to check Full / ScheduleTimeout / closed errors exactly. distinct_nontrivial = distinct scenarios + hook-trace signatures",
 				Assumptions: []string{"exactly-once only while the pool is left open; configurations restricted to the property's quantifier (max >= 1, queue capacity >= 1, standby >= 1 or the standby-0 variant)",
 					"idle workers re-arming their expiry timer are not counted as progress", "workerSizeMaximum is configured before any other setter wakes the spawn loop (the bound is only asserted while the maximum is not being changed)", "the race detector is advisory for worker/pool.go (pre-existing unsynchronised statistics counters), reports are recorded but do not decide"},
